@@ -628,6 +628,16 @@ def execute(case):
         if lane == "stdin":
             inv = {"argv": [], "cwd": os.path.dirname(root) or ".", "hashseed": case["hashseed"],
                    "stdin": world["files"][root]}
+        # the crate's own project file named through --config-path as its *directory*, spelled the way a user types it
+        # (relative, with a dot, through a link): the same file, the same exclusions
+        cfgp0 = os.path.join(case["base"], "rustfmt.toml")
+        if lane == "normal" and cfgp0 in world["files"] and case["hashseed"] % 11 == 4 and case["hashseed"] % 5 != 0:
+            rel = os.path.relpath(case["base"], cwd)
+            opts = [rel, rel if rel == "." else "./" + rel, "$ROOT/" + case["base"] + "/.", "$ROOT/" + case["base"], os.path.join(rel, "..", os.path.basename(case["base"]))]
+            if case["spelling"] == "symlink":
+                opts += ["clink", "clink"]
+            inv["argv"] = ["--config-path", opts[(case["hashseed"] // 11) % len(opts)]] + inv["argv"]
+            v.probe("config-path-names-directory")
         # the project file that carries the exclusions cannot be examined (EACCES / ELOOP / EIO on its stat): the run
         # may fail for this crate, it may not carry on as if the file were absent and format what it excludes
         cfgfault = None
